@@ -21,18 +21,32 @@ from .refmodel.expr import form, D
 UNIVERSE = ['Al', 'Cu', 'Fe', 'Ni']          # enumerated exhaustively
 BIG = ['Al', 'Cu', 'Fe', 'Ni', 'Ag', 'Au']   # structured 5- and 6-element models
 CUSTOM = ['Xx', 'A', 'B', 'Zq']
+# labels that are anagrams of each other when two are joined (Fe2+Cr3 / Fe3+Cr2), labels of 8 characters (the widest the fixed-width formats hold)
+CUSTOM2 = ['Fe2', 'Fe3', 'Cr2', 'Cr3', 'Ce_core4', 'O_shell2']
+FOREIGN = ['Mg', 'O']                       # species of pair potentials that have no EAM functions (hybrid pair/EAM models)
 BUILTIN = {'Al': (13, 26.981538), 'Cu': (29, 63.546), 'Fe': (26, 55.845), 'Ni': (28, 58.6934), 'Ag': (47, 107.8682), 'Au': (79, 196.96655)}
 # (values with more digits than %f prints and values in scientific notation: the element line must not lose them)
 OVERRIDE = {'Al': {'atomic_mass': 26.9815385123}, 'Cu': {'lattice_constant': 3.6149671234}, 'Fe': {'lattice_type': 'bcc', 'atomic_number': 99},
             'Ni': {'atomic_mass': 4.48e-26, 'lattice_constant': 3.52e-1, 'lattice_type': 'hcp'}}
 CUSTOM_DATA = {'Xx': {'atomic_number': 119, 'atomic_mass': 300.5}, 'A': {'atomic_number': 1, 'atomic_mass': 1.25, 'lattice_constant': 2.5},
                'B': {'atomic_number': 2, 'atomic_mass': 4.5, 'lattice_type': 'bcc'},
-               'Zq': {'atomic_number': 7, 'atomic_mass': 14.0, 'lattice_constant': 4.25, 'lattice_type': 'sc'}}
+               'Zq': {'atomic_number': 7, 'atomic_mass': 14.0, 'lattice_constant': 4.25, 'lattice_type': 'sc'},
+               # element lines of very different lengths follow each other in either order
+               'Fe2': {'atomic_number': 26, 'atomic_mass': 55.845, 'lattice_constant': 5.4307123, 'lattice_type': 'diamond'},
+               'Fe3': {'atomic_number': 3, 'atomic_mass': 6.0, 'lattice_constant': 3.0, 'lattice_type': 'bcc'},
+               'Cr2': {'atomic_number': 24, 'atomic_mass': 51.9961, 'lattice_type': 'sc'},
+               'Cr3': {'atomic_number': 124, 'atomic_mass': 351.99615, 'lattice_constant': 12.345678, 'lattice_type': 'hexagonal'},
+               'Ce_core4': {'atomic_number': 58, 'atomic_mass': 140.116, 'lattice_constant': 5.41, 'lattice_type': 'diamond'},
+               'O_shell2': {'atomic_number': 8, 'atomic_mass': 15.999}}
 
 
 def idx(el):
     if el in BIG:
         return BIG.index(el)
+    if el in FOREIGN:
+        return 6 + FOREIGN.index(el)
+    if el in CUSTOM2:
+        return CUSTOM2.index(el)
     return CUSTOM.index(el)
 
 
@@ -135,6 +149,48 @@ def ref_meta(m, el, route):
     return (d['atomic_number'], d['atomic_mass'], d.get('lattice_constant', 0.0), d.get('lattice_type', 'fcc'))
 
 
+def all_pairs(m):
+    """[Pair] entries as listed: the model's pairs interleaved with its 'foreign' pairs (pair potentials involving a species that
+    has no EAM functions - they belong to another pair style of a hybrid model and are not part of the EAM file)"""
+    out = [list(p) for p in m['pairs']]
+    for k, p in enumerate(m.get('foreign', [])):
+        out.insert(min(len(out), 2 * k), list(p))
+    return out
+
+
+def label_models(fs, tier):
+    """models that differ from the enumerated ones only in their LABELS / in foreign pair potentials"""
+    out = []
+    k = 0
+
+    def mk(els, species, foreign=()):
+        up = unordered_pairs(els)
+        pairs = orient([p for i, p in enumerate(up) if (k >> i) & 1 or len(up) < 3], k % 3)
+        if fs:
+            allp = ['%s->%s' % (a, b) for a in els for b in els]
+            dens = [p for i, p in enumerate(allp) if (i + k) % 3]
+        else:
+            dens = list(els) if k % 2 else list(reversed(els))
+        return dict(fs=fs, embed=list(els), dens=dens, pairs=[list(p) for p in pairs], species=species, foreign=[list(p) for p in foreign],
+                    nr=3 + k % 3, cutoff=2.5, nrho=2 + k % 4, cutoff_rho=50.0)
+    for n in (2, 3, 4):
+        for els in itertools.permutations(CUSTOM2[:4], n):
+            k += 1
+            if n == 4 and tier == 'quick' and k % 3:
+                continue
+            out.append(mk(list(els), 'custom'))
+    for n in (1, 2, 3):
+        for els in itertools.permutations(['Ce_core4', 'O_shell2', 'Cr3'], n):
+            k += 1
+            out.append(mk(list(els), 'custom'))
+    for n in (1, 2, 3):
+        for els in itertools.permutations(UNIVERSE[:3], n):
+            for fp in ([['Mg', 'O']], [['O', 'O'], [els[0], 'O']], [['Mg', els[-1]], ['O', 'Mg'], ['Mg', 'Mg'], ['O', els[0]]]):
+                k += 1
+                out.append(mk(list(els), 'builtin', fp))
+    return out
+
+
 # -------------------------------------------------------------------------------------- ini rendering
 def eam_ini(m, target, sep=' : '):
     out = ['[Tabulation]', 'target%s%s' % (sep, target), 'nr%s%d' % (sep, m['nr']), 'cutoff%s%s' % (sep, X.num(m['cutoff'])),
@@ -157,7 +213,7 @@ def eam_ini(m, target, sep=' : '):
         out.append('%s%s%s' % (k, sep, X.render_defn(d)))
     out.append('')
     out.append('[Pair]')
-    for a, b in m['pairs']:
+    for a, b in all_pairs(m):
         out.append('%s-%s%s%s' % (a, b, sep, X.render_defn(pair_defn(a, b))))
     out.append('')
     if 'dip' in m:
@@ -207,7 +263,7 @@ def api_objects(m, order=None):
         else:
             dens = R.api_defn(dens_defn(el)) if el in m['dens'] else pf.zero()
         eam.append(ap.EAMPotential(el, Z, mass, emb, dens, a, lat))
-    pots = [ap.Potential(a, b, R.api_defn(pair_defn(a, b))) for a, b in m['pairs']]
+    pots = [ap.Potential(a, b, R.api_defn(pair_defn(a, b))) for a, b in all_pairs(m)]
     dip = [ap.Potential(a, b, R.api_defn(dip_defn(a, b))) for a, b in m.get('dip', [])]
     quad = [ap.Potential(a, b, R.api_defn(quad_defn(a, b))) for a, b in m.get('quad', [])]
     return pots, eam, dip, quad
@@ -243,7 +299,7 @@ def produce(m, target, route, spelling=None):
     ini = eam_ini(m, spelling or target)
     if route == 'cfg':
         return R.write_tabulation(R.config_read(ini))
-    res = R.potable(ini, binary=binary)
+    res = R.potable(ini, binary=binary, prefill=True)
     if res.exc is not None:
         raise res.exc
     if res.status != 0:
